@@ -21,7 +21,7 @@ suite green (288/288):
   refactor produces: an off-by-one at a threshold, a dropped state guard, two
   swapped fields, one DFA cell, ...). Mutants that turned out to be equivalent
   were removed, not kept as "misses".
-* `seeded/<ID>/`, `seeded/<ID>b/` ... `seeded/<ID>l/` - eleven rounds (and a half round over ten properties) of one change per property, each made by an **independent agent** that
+* `seeded/<ID>/`, `seeded/<ID>b/` ... `seeded/<ID>l/` - twelve rounds of one change per property, each made by an **independent agent** that
   was given only the property text and a scratch worktree (nothing from
   `/verif`), asked for a change that needs something specific to manifest (an
   interleaving, a fault at a particular point, a multi-step sequence, an unusual
@@ -30,8 +30,8 @@ suite green (288/288):
   `tools/seedtest.sh` (patch applies to a clean checkout, demo passes/fails as
   claimed, pinned suite still 288/288) before keeping it.
 
-Across the rounds 119 of the 230 seeded changes were caught on first contact (11, 12, 10, 10, 13, 10, 11, 10, 11, 8, 8 of 20, then 5 of 10), the
-other 111 pointed at generator or oracle gaps that were then closed - each table below says which - and eighteen of the
+Across the twelve rounds 125 of the 240 seeded changes were caught on first contact (11, 12, 10, 10, 13, 10, 11, 10, 11, 8, 8, 11 of 20), the
+other 115 pointed at generator or oracle gaps that were then closed - each table below says which - and eighteen of the
 strengthenings exposed genuine defects of the unchanged tree (fixed, §5.1: C18 x2, C08 x4, C04 x2, C15, C11, C05 x2, C20, C10 x3, C01; eight of
 them were first pointed out by seeding agents as side observations on the unmodified tree) plus one that is recorded rather than repaired
 (C06, §5.2).
@@ -232,8 +232,8 @@ collide with constructor parameters* - the reserved-name exclusion stated in §3
 authmethod downgrade, lenient base64* - outside C19's statement (signatures and mutual authentication of one exchange); *a raising component `main`
 reconnects* - the open finding of §5.2.
 
-A **twelfth, half round** (`seeded/<ID>l/`, the ten properties with the lowest first-contact rate so far: C04 C06 C10 C13 C14 C16 C17 C18 C19 C20;
-eleven earlier summaries given) - first contact, quick tier, replays off: 5 caught at once (C06l C13l C16l C17l C19l), 5 missed:
+A **twelfth round** (`seeded/<ID>l/`; eleven earlier summaries given; run in two halves) - first contact, quick tier, replays off: 11 caught at once
+(C01l C06l C07l C08l C09l C12l C13l C15l C16l C17l C19l), 9 missed:
 
 | prop | seeded change needs | gap in my check | strengthening |
 |---|---|---|---|
@@ -241,6 +241,10 @@ eleven earlier summaries given) - first contact, quick tier, replays off: 5 caug
 | C10l | the "already answered" flag of the progress callable (the round-11 repair) is only set when the YIELD itself went out: after the fallback ERROR for an unsendable result a late `progress()` still writes a YIELD | the late `progress()` call was only made by the `progress` behaviour, which always returns a sendable value | the late call follows every kind of terminal reply (value, error, fallback ERROR, late resolution of a pending result) |
 | C14l | an *unclean* loss after HELLO and before WELCOME resolves the attempt as done: `start()` succeeds with retries left | connections were lost before the transport handshake or after the join, never in between | outcome "lost-before-welcome" |
 | C18l | the URI computed for an exception class is cached per session: a class raised before `define()` keeps the generic URI afterwards | classes were defined before their first use | half of the explicitly defined classes are raised once before `define()` and again afterwards |
+| C02l | the hold queue for ping / pong frames (the round-11 repair of C01) keeps one frame per opcode: of two pings arriving while a streaming frame is open only the last is answered | C02's check drives a raw peer against an endpoint whose application does not send; the scenario lives in C01's enumerated streaming job, which does catch it (two pings, both pongs required) | assigned to C01's check (`checked_by` in its meta.json); nothing to add |
+| C03l | a fast path of the JSON decoder ignores `use_binary_hex_encoding`: binaries come back as `'0x..'` text | only default-constructed serializers were used | a fifth serializer configuration, JSON with the hex binary convention (batched and not); texts starting with `0x` are that mode's binary marker and are not generated there |
+| C05l | the hold queue also holds CLOSE: with a streaming frame open the close reply is never written, yet the close is reported clean | no history left a streaming frame open | local send "stream-open" (frame announced, half sent); afterwards the octet stream as a whole cannot be judged (a close inside an open frame has no well-formed encoding: don't-care), each write is judged on its own for being a close frame |
+| C11l | the ERROR reply to an UNSUBSCRIBE also forgets the subscription id: a handler that joined the id meanwhile loses its events (EVENT becomes a protocol violation) | my model declared the state after a refused unsubscribe "unspecified" and never shared an id that had an UNSUBSCRIBE in flight | enumerated job: refused UNSUBSCRIBE with a second handler joining before / after the ERROR, events before and after |
 | C20l | ERROR payloads are left in the clear for `wamp.error.*` URIs, which includes every plain Python exception | the endpoint always raised an application URI | the endpoint raises an application URI, a standard `wamp.error.*` URI or a plain exception |
 
 Round 4 also produced two mutants that do not terminate (C15d on the receive path, C02d under interleaving): a check
